@@ -76,6 +76,9 @@ class OldRewriter(ast.NodeTransformer):
             k = len(self.olds)
             self.olds.append(node.args[0])
             return ast.copy_location(ast.Name(id=f"__old_{k}", ctx=ast.Load()), node)
+        if isinstance(node.func, ast.Name) and node.func.id == "implies" and len(node.args) == 2:
+            a, b = self.visit(node.args[0]), self.visit(node.args[1])
+            return ast.copy_location(ast.BoolOp(op=ast.Or(), values=[ast.UnaryOp(op=ast.Not(), operand=a), b]), node)
         return self.generic_visit(node)
 
 
